@@ -96,7 +96,8 @@ class RecordingProblem(Problem):
             raise BudgetAbort("evaluation cap %d exceeded" % self.cap)
         if self.inside_hook is not None and ph == "g":
             self.inside_hook(self)
-        if self.fault is not None and self.fault[0] == i:
+        if self.fault is not None and (self.fault[0] == i or (len(self.fault) > 2 and self.fault[2] and i > self.fault[0])):
+            # one-shot fault on the k-th call; with fault[2] true the objective keeps failing on every later call
             ent["exc"] = self.fault[1].__name__
             raise self.fault[1]("injected fault at evaluation %d" % i)
         v = self.f(y)
